@@ -367,6 +367,19 @@ Definition suffix_text (x : suffix) : str :=
 Lemma render_lit : forall b x, render_term (TLit b x) = (cDQ :: lit_text b ++ [cDQ]) ++ suffix_text x.
 Proof. intros b x. cbn [render_term app]. rewrite <- app_assoc. destruct x; reflexivity. Qed.
 
+Lemma render_quoted : forall s p o, render_term (TQuoted s p o) =
+  cLT :: cLT :: cSP :: (render_term s ++ [cSP]) ++ (render_term p ++ [cSP]) ++ (render_term o ++ [cSP]) ++ [cGT; cGT].
+Proof. intros. cbn [render_term app]. rewrite <- !app_assoc. reflexivity. Qed.
+
+Lemma tight_quoted : forall s p o, tight (render_term (TQuoted s p o)).
+Proof.
+  intros. rewrite render_quoted. apply tight_intro; [reflexivity|].
+  replace (cLT :: cLT :: cSP :: (render_term s ++ [cSP]) ++ (render_term p ++ [cSP]) ++ (render_term o ++ [cSP]) ++ [cGT; cGT])
+    with ((cLT :: cLT :: cSP :: (render_term s ++ [cSP]) ++ (render_term p ++ [cSP]) ++ (render_term o ++ [cSP]) ++ [cGT]) ++ [cGT])
+    by (cbn [app]; rewrite <- !app_assoc; reflexivity).
+  apply last_nws_snoc. reflexivity.
+Qed.
+
 Lemma tight_term : forall t, wf_term_nt t = true -> tight (render_term t).
 Proof.
   intros t H. destruct t as [s|l|p l|b x|s p o]; cbn [wf_term_nt] in H; try discriminate.
@@ -385,6 +398,183 @@ Proof.
         with ((cDQ :: (lit_text b ++ [cDQ]) ++ cCARET :: cCARET :: cLT :: iri) ++ [cGT]).
       * apply last_nws_snoc. reflexivity.
       * cbn [app]. rewrite <- !app_assoc. reflexivity.
+  - apply tight_quoted.
+Qed.
+
+(* ---------------------------------------------------------------------------------------------- *)
+(* inside a quoted triple `<< s p o >>`: the tokenizer at depth 1 *)
+Definition sD (ps : list str) (cur : str) : pst := mkP ps cur false false false 1 MNorm false.
+Definition sDL (ps : list str) (cur : str) : pst := mkP ps cur false true false 1 MNorm false.
+Definition sDLE (ps : list str) (cur : str) : pst := mkP ps cur false true true 1 MNorm false.
+Definition sDM (m : pmode) (ps : list str) (cur : str) : pst := mkP ps cur false false false 1 m false.
+
+Ltac step_unfold1 :=
+  cbv [p_step p_norm sB sU sL sLE sM st sD sDL sDLE sDM p_push p_emit p_finish p_set_mode p_set_skip p_set_uri
+       p_set_lit p_set_esc p_set_depth opt_is p_parts p_cur p_uri p_lit p_esc p_depth p_mode p_skip negb andb orb];
+  eval_closed; cbv iota.
+
+Lemma d_open : forall ps, p_step (st ps) cLT (Some cLT) = mkP ps [cLT; cLT] false false false 1 MNorm true.
+Proof. intros. step_unfold1. reflexivity. Qed.
+Lemma d_skip : forall ps cur c nx, p_step (mkP ps cur false false false 1 MNorm true) c nx = sD ps cur.
+Proof. intros. step_unfold1. reflexivity. Qed.
+Lemma d_skip0 : forall ps c nx, p_step (mkP ps [] false false false 0 MNorm true) c nx = st ps.
+Proof. intros. step_unfold1. reflexivity. Qed.
+Lemma d_push : forall ps cur c nx, (c =? cLT) = false -> (c =? cGT) = false -> (c =? cDQ) = false ->
+  p_step (sD ps cur) c nx = sD ps (c :: cur).
+Proof. intros ps cur c nx H1 H2 H3. step_unfold1. rewrite H1, H2, H3. kill_ifs. Qed.
+Lemma d_lt : forall ps cur nx, opt_is cLT nx = false -> p_step (sD ps cur) cLT nx = sD ps (cLT :: cur).
+Proof. intros ps cur nx H. unfold opt_is in H. step_unfold1. destruct nx as [x|]; [rewrite H|]; kill_ifs. Qed.
+Lemma d_gt : forall ps cur nx, opt_is cGT nx = false -> p_step (sD ps cur) cGT nx = sD ps (cGT :: cur).
+Proof. intros ps cur nx H. unfold opt_is in H. step_unfold1. destruct nx as [x|]; [rewrite H|]; kill_ifs. Qed.
+Lemma d_close : forall ps cur, p_step (sD ps cur) cGT (Some cGT) =
+  mkP (trim (rev (cGT :: cGT :: cur)) :: ps) [] false false false 0 MNorm true.
+Proof. intros. step_unfold1. reflexivity. Qed.
+Lemma d_open_lit : forall ps cur nx, p_step (sD ps cur) cDQ nx = sDL ps (cDQ :: cur).
+Proof. intros. step_unfold1. reflexivity. Qed.
+Lemma d_close_lit : forall ps cur nx, p_step (sDL ps cur) cDQ nx = sDM MAfterQ ps (cDQ :: cur).
+Proof. intros. step_unfold1. reflexivity. Qed.
+Lemma d_aq_caret : forall ps cur nx, p_step (sDM MAfterQ ps cur) cCARET nx = sDM MCaret ps (cCARET :: cur).
+Proof. intros. step_unfold1. kill_ifs. Qed.
+Lemma d_caret_caret : forall ps cur nx, p_step (sDM MCaret ps cur) cCARET nx = sDM MDt ps (cCARET :: cur).
+Proof. intros. step_unfold1. kill_ifs. Qed.
+Lemma d_dt_lt : forall ps cur nx, p_step (sDM MDt ps cur) cLT nx = sDM MDtUri ps (cLT :: cur).
+Proof. intros. step_unfold1. kill_ifs. Qed.
+Lemma d_dturi_char : forall ps cur c nx, (c =? cGT) = false -> p_step (sDM MDtUri ps cur) c nx = sDM MDtUri ps (c :: cur).
+Proof. intros ps cur c nx H. step_unfold1. rewrite H. kill_ifs. Qed.
+Lemma d_dturi_gt : forall ps cur nx, p_step (sDM MDtUri ps cur) cGT nx = sD ps (cGT :: cur).
+Proof. intros. step_unfold1. kill_ifs. Qed.
+Lemma d_aq_sp : forall ps cur nx, p_step (sDM MAfterQ ps cur) cSP nx = sD ps (cSP :: cur).
+Proof. intros. step_unfold1. kill_ifs. Qed.
+
+Lemma step_lit_plain1 : forall ps cur c nx, plain_char c = true -> p_step (sDL ps cur) c nx = sDL ps (c :: cur).
+Proof.
+  intros ps cur c nx H. unfold plain_char in H. bools.
+  step_unfold1. rewrite H, H0. kill_ifs.
+Qed.
+
+Lemma step_lit_bs1 : forall ps cur nx, p_step (sDL ps cur) cBS nx = sDLE ps (cBS :: cur).
+Proof. intros ps cur nx. step_unfold1. reflexivity. Qed.
+
+Lemma step_lit_escaped1 : forall ps cur c nx, p_step (sDLE ps cur) c nx = sDL ps (c :: cur).
+Proof.
+  intros ps cur c nx. step_unfold1. kill_ifs.
+Qed.
+
+Lemma scan_lit_plain1 : forall l ps pre la, forallb plain_char l = true ->
+  scan_la (sDL ps (rev pre)) l la = sDL ps (rev (pre ++ l)).
+Proof.
+  induction l as [|c l IH]; intros ps pre la H.
+  - rewrite app_nil_r. reflexivity.
+  - cbn [forallb] in H. apply andb_true_iff in H. destruct H as [Hc H].
+    cbn [scan_la]. rewrite step_lit_plain1 by exact Hc. rewrite rev_snoc_cons.
+    rewrite IH by exact H. rewrite <- app_assoc. reflexivity.
+Qed.
+
+Lemma scan_lchar1 : forall x ps pre la, wf_lchar x = true ->
+  scan_la (sDL ps (rev pre)) (lchar_text x) la = sDL ps (rev (pre ++ lchar_text x)).
+Proof.
+  intros x ps pre la H. destruct x as [c|c|d|d]; cbn [lchar_text wf_lchar] in *.
+  - apply scan_lit_plain1. cbn [forallb]. rewrite H. reflexivity.
+  - cbn [scan_la]. rewrite step_lit_bs1, step_lit_escaped1. rewrite !rev_snoc_cons, <- app_assoc. reflexivity.
+  - unfold wf_hex in H. apply andb_true_iff in H. destruct H as [H _]. apply andb_true_iff in H. destruct H as [_ H].
+    cbn [scan_la]. rewrite step_lit_bs1.
+    destruct d as [|d0 d'].
+    + rewrite step_lit_escaped1. rewrite !rev_snoc_cons, <- app_assoc. reflexivity.
+    + rewrite step_lit_escaped1. rewrite !rev_snoc_cons.
+      rewrite scan_lit_plain1 by (apply hexes_plain; exact H). rewrite <- !app_assoc. reflexivity.
+  - unfold wf_hex in H. apply andb_true_iff in H. destruct H as [H _]. apply andb_true_iff in H. destruct H as [_ H].
+    cbn [scan_la]. rewrite step_lit_bs1.
+    destruct d as [|d0 d'].
+    + rewrite step_lit_escaped1. rewrite !rev_snoc_cons, <- app_assoc. reflexivity.
+    + rewrite step_lit_escaped1. rewrite !rev_snoc_cons.
+      rewrite scan_lit_plain1 by (apply hexes_plain; exact H). rewrite <- !app_assoc. reflexivity.
+Qed.
+
+Lemma scan_lit_body1 : forall b ps pre la, forallb wf_lchar b = true ->
+  scan_la (sDL ps (rev pre)) (lit_text b) la = sDL ps (rev (pre ++ lit_text b)).
+Proof.
+  induction b as [|x b IH]; intros ps pre la H.
+  - cbn [lit_text flat_map]. rewrite app_nil_r. reflexivity.
+  - cbn [forallb] in H. apply andb_true_iff in H. destruct H as [Hx H].
+    unfold lit_text in *. cbn [flat_map]. rewrite scan_la_app.
+    rewrite scan_lchar1 by exact Hx. rewrite IH by exact H. rewrite <- app_assoc. reflexivity.
+Qed.
+
+
+Lemma scan_d_push : forall l ps pre la, forallb iri_char l = true ->
+  scan_la (sD ps (rev pre)) l la = sD ps (rev (pre ++ l)).
+Proof.
+  induction l as [|c l IH]; intros ps pre la H.
+  - rewrite app_nil_r. reflexivity.
+  - cbn [forallb] in H. apply andb_true_iff in H. destruct H as [Hc H].
+    apply iri_char_facts in Hc. destruct Hc as (_ & H1 & H2 & H3 & _).
+    cbn [scan_la]. rewrite d_push by assumption. rewrite rev_snoc_cons.
+    rewrite IH by exact H. rewrite <- app_assoc. reflexivity.
+Qed.
+
+Lemma scan_d_dturi : forall iri ps pre la, wf_iri iri = true ->
+  scan_la (sDM MDtUri ps (rev pre)) (iri ++ [cGT]) la = sD ps (rev (pre ++ iri ++ [cGT])).
+Proof.
+  induction iri as [|c iri IH]; intros ps pre la H.
+  - cbn [app scan_la]. rewrite d_dturi_gt. rewrite rev_snoc_cons. reflexivity.
+  - unfold wf_iri in H. cbn [forallb] in H. apply andb_true_iff in H. destruct H as [Hc H].
+    apply iri_char_facts in Hc. destruct Hc as (_ & _ & H2 & _).
+    cbn [app scan_la]. rewrite d_dturi_char by exact H2. rewrite rev_snoc_cons.
+    rewrite IH by exact H. rewrite <- app_assoc. reflexivity.
+Qed.
+
+(* a component followed by the blank that always follows it inside `<< s p o >>` *)
+Lemma scan_component : forall t ps pre la, comp_ok t = true ->
+  scan_la (sD ps (rev pre)) (render_term t ++ [cSP]) la = sD ps (rev (pre ++ render_term t ++ [cSP])).
+Proof.
+  intros t ps pre la H. destruct t as [s|l|p l|b x|s p o]; cbn [comp_ok] in H; try discriminate.
+  - (* IRI *)
+    cbn [render_term]. cbn [app scan_la].
+    assert (E : opt_is cLT (match (s ++ [cGT]) ++ [cSP] with [] => la | c2 :: _ => Some c2 end) = false).
+    { destruct s as [|c s']; [reflexivity|]. cbn [app]. unfold wf_iri in H. cbn [forallb] in H.
+      apply andb_true_iff in H. destruct H as [Hc _]. apply iri_char_facts in Hc. destruct Hc as (_ & Hc & _).
+      unfold opt_is. exact Hc. }
+    rewrite d_lt by exact E. rewrite rev_snoc_cons. rewrite <- app_assoc.
+    rewrite scan_la_app. rewrite scan_d_push by exact H.
+    cbn [app scan_la]. rewrite d_gt by reflexivity. rewrite d_push by reflexivity.
+    rewrite !rev_snoc_cons. rewrite <- !app_assoc. reflexivity.
+  - (* blank node *)
+    cbn [render_term]. change ((95 :: cCOLON :: l) ++ [cSP]) with ((95 :: cCOLON :: l) ++ [cSP]).
+    rewrite scan_la_app. rewrite scan_d_push by (cbn [forallb]; unfold wf_iri in H; rewrite H; reflexivity).
+    cbn [scan_la]. rewrite d_push by reflexivity. rewrite rev_snoc_cons, <- app_assoc. reflexivity.
+  - (* literal *)
+    destruct x as [|tag|iri]; try discriminate.
+    + cbn [render_term]. rewrite app_nil_r || idtac.
+      change ((cDQ :: lit_text b ++ [cDQ]) ++ [cSP]) with (cDQ :: (lit_text b ++ [cDQ]) ++ [cSP]).
+      cbn [scan_la]. rewrite d_open_lit. rewrite rev_snoc_cons. rewrite <- app_assoc.
+      rewrite scan_la_app. rewrite scan_lit_body1 by exact H.
+      cbn [app scan_la]. rewrite d_close_lit, d_aq_sp. rewrite !rev_snoc_cons. rewrite <- !app_assoc. reflexivity.
+    + apply andb_true_iff in H. destruct H as [Hb Hi]. cbn [render_term].
+      replace ((cDQ :: lit_text b ++ cDQ :: cCARET :: cCARET :: cLT :: iri ++ [cGT]) ++ [cSP])
+        with (cDQ :: lit_text b ++ (cDQ :: cCARET :: cCARET :: cLT :: (iri ++ [cGT]) ++ [cSP]))
+        by (cbn [app]; rewrite <- !app_assoc; cbn [app]; rewrite <- ?app_assoc; reflexivity).
+      cbn [scan_la]. rewrite d_open_lit. rewrite rev_snoc_cons.
+      rewrite scan_la_app. rewrite scan_lit_body1 by exact Hb.
+      cbn [scan_la]. rewrite d_close_lit, d_aq_caret, d_caret_caret, d_dt_lt. rewrite !rev_snoc_cons.
+      rewrite scan_la_app. rewrite scan_d_dturi by exact Hi. cbn [scan_la]. rewrite d_push by reflexivity.
+      rewrite rev_snoc_cons. repeat (rewrite <- app_assoc). cbn [app]. repeat (rewrite <- app_assoc). reflexivity.
+Qed.
+
+Lemma scan_quoted : forall s p o ps la, comp_ok s = true -> comp_ok p = true -> comp_ok o = true ->
+  scan_la (st ps) (render_term (TQuoted s p o)) la = st (render_term (TQuoted s p o) :: ps).
+Proof.
+  intros s p o ps la Hs Hp Ho. pose proof (trim_tight _ (tight_quoted s p o)) as T. rewrite render_quoted in *.
+  cbn [scan_la]. rewrite d_open, d_skip.
+  rewrite (d_push ps [cLT; cLT] cSP) by reflexivity.
+  change (sD ps [cSP; cLT; cLT]) with (sD ps (rev [cLT; cLT; cSP])).
+  rewrite scan_la_app, scan_component by exact Hs.
+  rewrite scan_la_app, scan_component by exact Hp.
+  rewrite scan_la_app, scan_component by exact Ho.
+  cbn [scan_la]. rewrite d_close, d_skip0.
+  assert (E : rev (cGT :: cGT :: rev ((([cLT; cLT; cSP] ++ render_term s ++ [cSP]) ++ render_term p ++ [cSP]) ++ render_term o ++ [cSP]))
+              = cLT :: cLT :: cSP :: (render_term s ++ [cSP]) ++ (render_term p ++ [cSP]) ++ (render_term o ++ [cSP]) ++ [cGT; cGT]).
+  { cbn [rev]. rewrite rev_involutive. repeat (rewrite <- app_assoc). cbn [app]. repeat (rewrite <- app_assoc). reflexivity. }
+  rewrite E, T. reflexivity.
 Qed.
 
 (* ---------------------------------------------------------------------------------------------- *)
@@ -439,6 +629,9 @@ Proof.
     + cbn [scan_la]. rewrite step_aq_caret. rewrite step_caret_caret. rewrite step_dt_lt.
       rewrite !rev_snoc_cons. rewrite scan_dturi by exact Hx.
       rewrite <- !app_assoc. cbn [app] in *. rewrite Ht. apply resolves_clean.
+  - (* quoted triple *)
+    apply andb_true_iff in H. destruct H as [H Ho]. apply andb_true_iff in H. destruct H as [Hs Hp].
+    rewrite scan_quoted by assumption. apply resolves_clean.
 Qed.
 
 (* ---------------------------------------------------------------------------------------------- *)
@@ -556,7 +749,7 @@ Qed.
 Lemma render_first : forall t, wf_term_nt t = true ->
   exists c r, render_term t = c :: r /\ (c = cLT \/ c = 95 \/ c = cDQ).
 Proof.
-  intros t H. destruct t as [s|l|p l|b x|s p o]; cbn [wf_term_nt] in H; try discriminate; cbn [render_term]; eauto 6.
+  intros t H. destruct t as [s|l|p l|b x|s p o]; cbn [wf_term_nt] in H; try discriminate; cbn [render_term app]; eauto 6.
 Qed.
 
 Lemma starts_ltlt_iri : forall s, wf_iri s = true -> starts_with sLTLT (cLT :: s ++ [cGT]) = false.
@@ -567,21 +760,39 @@ Proof.
   apply iri_char_facts in Hc. destruct Hc as (_ & Hc & _). rewrite N.eqb_sym, Hc. reflexivity.
 Qed.
 
-Lemma clean_rendered : forall t, wf_term_nt t = true -> clean_nt_term (render_term t) = lex [] t.
+(* what parse_ntriples_line hands on for a term: its lexical form, or - for a quoted triple - its text, which
+   encode_term_star takes apart later *)
+Definition cleaned (t : term) : str := match t with TQuoted _ _ _ => render_term t | _ => lex [] t end.
+
+Lemma ends_gtgt_snoc : forall m, ends_with sGTGT (m ++ [cGT; cGT]) = true.
+Proof. intro m. unfold ends_with. rewrite rev_app_distr. reflexivity. Qed.
+
+Lemma quoted_brackets : forall s p o,
+  starts_with sLTLT (render_term (TQuoted s p o)) = true /\ ends_with sGTGT (render_term (TQuoted s p o)) = true.
+Proof.
+  intros. rewrite render_quoted. split; [reflexivity|].
+  replace (cLT :: cLT :: cSP :: (render_term s ++ [cSP]) ++ (render_term p ++ [cSP]) ++ (render_term o ++ [cSP]) ++ [cGT; cGT])
+    with ((cLT :: cLT :: cSP :: (render_term s ++ [cSP]) ++ (render_term p ++ [cSP]) ++ (render_term o ++ [cSP])) ++ [cGT; cGT])
+    by (cbn [app]; repeat (rewrite <- app_assoc); reflexivity).
+  apply ends_gtgt_snoc.
+Qed.
+
+Lemma clean_rendered : forall t, wf_term_nt t = true -> clean_nt_term (render_term t) = cleaned t.
 Proof.
   intros t H. pose proof (trim_tight _ (tight_term t H)) as Ht. unfold clean_nt_term. rewrite Ht.
   destruct t as [s|l|p l|b x|s p o]; cbn [wf_term_nt] in H; try discriminate.
-  - cbn [render_term lex]. rewrite starts_ltlt_iri by exact H. cbn [andb].
+  - cbn [render_term lex cleaned]. rewrite starts_ltlt_iri by exact H. cbn [andb].
     rewrite starts_with_c_cons. change (cLT =? cLT) with true.
     change (cLT :: s ++ [cGT]) with ((cLT :: s) ++ [cGT]). rewrite ends_with_c_snoc.
     change (cGT =? cGT) with true. cbn [andb]. change ((cLT :: s) ++ [cGT]) with (cLT :: s ++ [cGT]).
     apply strip1_wrap.
-  - cbn [render_term lex]. reflexivity.
+  - cbn [render_term lex cleaned]. reflexivity.
   - apply andb_true_iff in H. destruct H as [Hb Hx].
     rewrite decode_rendered_lit by exact Hb. rewrite render_lit. cbn [app].
     unfold sLTLT. cbn [starts_with]. change (cLT =? cDQ) with false. cbn [andb].
     rewrite !starts_with_c_cons. change (cDQ =? cLT) with false. change (cDQ =? cDQ) with true. cbn [andb].
-    destruct x as [|tag|iri]; cbn [suffix_text lex is_empty]; reflexivity.
+    destruct x as [|tag|iri]; cbn [suffix_text lex cleaned is_empty]; reflexivity.
+  - destruct (quoted_brackets s p o) as [A B]. rewrite A, B. reflexivity.
 Qed.
 
 Lemma rendered_not_a : forall t, wf_term_nt t = true -> str_eqb (render_term t) [97] = false.
@@ -592,7 +803,7 @@ Qed.
 
 Lemma parse_nt_line_stmt : forall s p o w1 w2,
   wf_term_nt s = true -> wf_term_nt p = true -> wf_term_nt o = true -> sep_ok w1 = true -> sep_ok w2 = true ->
-  parse_nt_line (render_term s ++ w1 ++ render_term p ++ w2 ++ render_term o) = Some (lex [] s, lex [] p, lex [] o).
+  parse_nt_line (render_term s ++ w1 ++ render_term p ++ w2 ++ render_term o) = Some (cleaned s, cleaned p, cleaned o).
 Proof.
   intros s p o w1 w2 Hs Hp Ho H1 H2. unfold parse_nt_line. rewrite parse_parts_3 by assumption.
   rewrite rendered_not_a by exact Hp. rewrite !clean_rendered by assumption. reflexivity.
@@ -600,7 +811,7 @@ Qed.
 
 Lemma parse_nq_line_3 : forall s p o w1 w2,
   wf_term_nt s = true -> wf_term_nt p = true -> wf_term_nt o = true -> sep_ok w1 = true -> sep_ok w2 = true ->
-  parse_nq_line (render_term s ++ w1 ++ render_term p ++ w2 ++ render_term o) = Some (lex [] s, lex [] p, lex [] o, None).
+  parse_nq_line (render_term s ++ w1 ++ render_term p ++ w2 ++ render_term o) = Some (cleaned s, cleaned p, cleaned o, None).
 Proof.
   intros s p o w1 w2 Hs Hp Ho H1 H2. unfold parse_nq_line. rewrite parse_parts_3 by assumption.
   rewrite !clean_rendered by assumption. reflexivity.
@@ -610,7 +821,7 @@ Lemma parse_nq_line_4 : forall s p o g w1 w2 w3,
   wf_term_nt s = true -> wf_term_nt p = true -> wf_term_nt o = true -> wf_term_nt g = true ->
   sep_ok w1 = true -> sep_ok w2 = true -> sep_ok w3 = true ->
   parse_nq_line (render_term s ++ w1 ++ render_term p ++ w2 ++ render_term o ++ w3 ++ render_term g)
-  = Some (lex [] s, lex [] p, lex [] o, Some (lex [] g)).
+  = Some (cleaned s, cleaned p, cleaned o, Some (cleaned g)).
 Proof.
   intros s p o g w1 w2 w3 Hs Hp Ho Hg H1 H2 H3. unfold parse_nq_line. rewrite parse_parts_4 by assumption.
   rewrite !clean_rendered by assumption. reflexivity.
@@ -679,7 +890,14 @@ Qed.
 
 Definition drop_graph (q : squad) : str * str * str := let '(s, p, o, _) := q in (s, p, o).
 
-Lemma nq_line_item : forall i, wf_item_nq i = true -> nq_line (render_item i) = item_quads [] i.
+(* the statements of an item as terms, and what the line parsers return for them *)
+Definition stmt4 := (term * term * term * option term)%type.
+Definition item_stmts (i : item) : list stmt4 :=
+  match i with IStmt _ s p o g => [(s, p, o, g)] | _ => [] end.
+Definition cleaned4 (q : stmt4) : squad :=
+  let '(s, p, o, g) := q in (cleaned s, cleaned p, cleaned o, option_map cleaned g).
+
+Lemma nq_line_item : forall i, wf_item_nq i = true -> nq_line (render_item i) = map cleaned4 (item_stmts i).
 Proof.
   intros i H. unfold nq_line. destruct i as [ws|ws text|pd s p o g|name iri|s pos]; cbn [wf_item_nq] in H; try discriminate.
   - cbn [render_item item_quads]. rewrite statement_blank by exact H. reflexivity.
@@ -713,7 +931,7 @@ Proof.
       * apply first_not_hash. assumption.
 Qed.
 
-Lemma nt_line_item : forall i, wf_item_nt i = true -> nt_line (render_item i) = map drop_graph (item_quads [] i).
+Lemma nt_line_item : forall i, wf_item_nt i = true -> nt_line (render_item i) = map drop_graph (map cleaned4 (item_stmts i)).
 Proof.
   intros i H. unfold wf_item_nt in H. apply andb_true_iff in H. destruct H as [H Hg].
   unfold nt_line. destruct i as [ws|ws text|pd s p o g|name iri|s pos]; cbn [wf_item_nq] in H; try discriminate.
